@@ -120,6 +120,27 @@ def gen_cases(ctx, n):
                         judge=judge_x(ln, None, True), tags={"wrong-crc"}, note="bad"))
         out.append(Case(A.rdr_op("seek", "eod", ["n", "x1"], stored_member(data, length=ln + r.choice([1, 5]))),
                         judge=judge_x(None, None, True), tags={"wrong-length"}, note="bad"))
+        # special recorded values: 0x0000 / 0xffff / byte-swapped where they are NOT the CRC of the data
+        for special in (0x0000, 0xffff, ((crc16(data) & 0xff) << 8) | (crc16(data) >> 8)):
+            if special != crc16(data):
+                for op_ in ("x1", "c"):
+                    out.append(Case(A.rdr_op(r.choice(A.KINDS), "eod", ["n", op_], stored_member(data, crc=special)),
+                                    judge=judge_x(ln, None, True) if op_ == "x1" else
+                                    (lambda o: ("a member whose recorded CRC is not the CRC of its bytes was reported good by check"
+                                                if ";c1" in o.split(" live=")[0] else None)),
+                                    tags={"wrong-crc", "special-crc"}, note="bad"))
+        # data whose TRUE CRC is 0x0000 (the data followed by its own CRC, low byte first), then damaged by a short burst
+        z = data + crc16(data).to_bytes(2, "little")
+        if crc16(z) == 0:
+            out.append(Case(A.rdr_op("seek", "eod", ["n", "x1"], stored_member(z)), judge=judge_x(len(z), 0, False), tags={"intact", "crc-zero"}))
+            for _ in range(6):
+                d2 = bytearray(z)
+                pos = r.randrange(len(z) * 8 - 3)
+                for b in range(r.randrange(1, 4)):
+                    d2[(pos + b) // 8] ^= 1 << ((pos + b) % 8)
+                good0 = stored_member(z)
+                arch = good0[:len(good0) - len(z)] + bytes(d2)
+                out.append(Case(A.rdr_op("seek", "eod", ["n", "x1"], arch), judge=judge_x(len(z), 0, True), tags={"burst", "crc-zero"}, note="bad"))
     # (1b) several decoding operations on the same member: a success verdict must still mean "the file holds the member"
     for k in range(max(3, n // 10)):
         ln = r.choice([1, 30, 200, 3000])
